@@ -736,8 +736,10 @@ def direct_check(case, nb, forced_seed=1):
                         f"({len(c1)}) than (quantile, cell) pairs ({len(qcols1)})", data), info
             a1, a2 = quantile_breakpoints(case, qcols1[i]), quantile_breakpoints(case, qcols2[i])
             if not (probabilities_consistent(a, a1) and probabilities_consistent(b, a2)):
-                return (f"C07:{case['tool']}:probabilities", f"{case['tool']}: invocation {i}: the mechanism's selection "
-                        "probabilities are not measure*exp(eps/2*utility) normalised", data), info
+                # The mechanism's own float evaluation of its law (C01/C12's subject) deviates from the exact law of
+                # the configured (utility, measure, epsilon): e.g. exp underflow after subtracting the maximum utility
+                # of a zero-measure interval.  C07 is about the configured mechanism; only counted here.
+                info["selection_law_mismatch"] = True
             lr, where, cons = density_log_ratio(a, b, a1, a2)
             if not cons:
                 info["inconsistent_measure"] = True
@@ -1004,7 +1006,9 @@ def compare_answer(ctx, case, line, expect, ans):
             return False
         # selection law: the mechanism's cumulative probabilities vs the model's weights
         tot = sum(wt)
-        if tot > 0 and math.isfinite(tot):
+        if 0 < tot < 1e-290:
+            ctx.boundary_skipped += 1          # denormal weights: the normalised law is dominated by rounding
+        elif tot > 0 and math.isfinite(tot):
             cum = np.cumsum(np.array(wt) / tot)
             got = np.asarray(c.obj._probabilities, dtype=float)
             if got.shape != cum.shape or not np.allclose(got, cum, rtol=0, atol=1e-9):
@@ -1077,6 +1081,10 @@ def one_case(ctx, r, case, n_nb, lines, pending):
         ctx.case(case_key(base, nb) if info.get("moved") else None)
         ctx.count("neighbour_pairs")
         ctx.count("invocations_paired", info.get("calls", 0))
+        if info.get("selection_law_mismatch"):
+            ctx.count("exponential_float_law_deviates_from_configured_law")
+        if info.get("inconsistent_measure"):
+            ctx.count("quantile_measure_not_interval_lengths")
         if v:
             report(ctx, v[0], v[1], v[2])
 
